@@ -651,6 +651,13 @@ func c15Goroutines(c *Ctx) {
 	// the watcher's exit depends on the receiver's Close waking Next: see receiverCloseSignals
 	receiverCloseSignals(c, "C15.Q4-receiver-close-wakes-next")
 	closeReleasesWhatWasCreated(c, "C15.Q4-receiver-releases-what-it-created")
+	// the receiver's Close (which Subscriber.Close waits for) holds the receiver's mutex over no wait: the watcher it
+	// waits for needs that mutex to get out of the announcement it is handling
+	{
+		rlocks := c.LockPairing("C15.Q5-receiver-lock-pairing", "announce", nil)
+		c.NoBlockingWhileHolding("C15.Q5-receiver-no-wait-under-mutex", "announce", rlocks, []string{"announceMutex"})
+		c.Floor("C15.Q5-receiver-no-wait-under-mutex", 1)
+	}
 	// a timer callback that re-arms its own timer looks at the shutdown signal after doing so: Stop (from Close) does
 	// not reach a callback that is already running, and an unconditional Reset in it brings the timer back to life
 	// after Close has returned — the callback then keeps firing for good
